@@ -118,6 +118,90 @@ T('C03', 'twin-kdf-join', FL, "        data += b'\\x03\\x01'\n        data.appen
 T('C03', 'twin-m-temp', PK, "        m = bytearray(self.int_to_bytes(symalg) + symkey)\n        m += self.int_to_bytes(sum(bytearray(symkey)) % 65536, 2)", "        chk = sum(bytearray(symkey)) % 65536\n        m = bytearray(self.int_to_bytes(symalg) + symkey + self.int_to_bytes(chk, 2))")
 T('C03', 'twin-iv-name', PK, "        iv = alg.gen_iv()\n        data = iv + iv[-2:] + data", "        prefix = alg.gen_iv()\n        data = prefix + prefix[-2:] + data")
 
+# ---- C03 hardening: behaviour-preserving refactorings of the anchored functions (must stay silent) and one new mutant per rewritten rule
+PKESK_ENC = ("    def encrypt_sk(self, pk, symalg, symkey):\n        m = bytearray(self.int_to_bytes(symalg) + symkey)\n        m += self.int_to_bytes(sum(bytearray(symkey)) % 65536, 2)\n\n"
+             "        if self.pkalg == PubKeyAlgorithm.RSAEncryptOrSign:\n            encrypter = pk.keymaterial.__pubkey__().encrypt\n            encargs = (bytes(m), padding.PKCS1v15(),)\n\n"
+             "        elif self.pkalg == PubKeyAlgorithm.ECDH:\n            encrypter = pk\n            encargs = (bytes(m),)\n\n        else:\n            raise NotImplementedError(self.pkalg)\n\n"
+             "        self.ct = self.ct.encrypt(encrypter, *encargs)\n        self.update_hlen()\n")
+T('C03', 'twin-pkesk-params-renamed', PK, PKESK_ENC,
+  "    def encrypt_sk(self, recipient, cipher, sessionkey):\n        body = [self.int_to_bytes(cipher), sessionkey, self.int_to_bytes(sum(bytearray(sessionkey)) & 0xFFFF, 2)]\n        mval = bytes(b''.join(body))\n\n"
+  "        if self.pkalg == PubKeyAlgorithm.RSAEncryptOrSign:\n            self.ct = self.ct.encrypt(recipient.keymaterial.__pubkey__().encrypt, mval, padding.PKCS1v15())\n\n"
+  "        elif self.pkalg == PubKeyAlgorithm.ECDH:\n            self.ct = self.ct.encrypt(recipient, mval)\n\n        else:\n            raise NotImplementedError(self.pkalg)\n\n        self.update_hlen()\n")
+T('C03', 'twin-pkesk-checksum-shift', PK, "        m += self.int_to_bytes(sum(bytearray(symkey)) % 65536, 2)", "        m += self.int_to_bytes(sum(bytearray(symkey)) % (1 << 16), 2)")
+M('C03', 'checksum-mask-fff', PK, "        m += self.int_to_bytes(sum(bytearray(symkey)) % 65536, 2)", "        m += self.int_to_bytes(sum(bytearray(symkey)) & 0xFFF, 2)", 'C03.1')
+M('C03', 'm-value-key-first', PK, "        m = bytearray(self.int_to_bytes(symalg) + symkey)\n        m += self.int_to_bytes(sum(bytearray(symkey)) % 65536, 2)",
+  "        m = bytearray(symkey + self.int_to_bytes(symalg))\n        m += self.int_to_bytes(sum(bytearray(symkey)) % 65536, 2)", 'C03.1')
+M('C03', 'ecdh-arm-wraps-for-keymaterial', PK, "            encrypter = pk\n            encargs = (bytes(m),)", "            encrypter = pk.keymaterial\n            encargs = (bytes(m),)", 'C03.1')
+T('C03', 'twin-rsa-pad-rjust', PK, "            ct = b'\\x00' * ((pk.keymaterial.__privkey__().key_size // 8) - len(ct)) + ct\n", "            ct = ct.rjust(pk.keymaterial.__privkey__().key_size >> 3, b'\\x00')\n")
+M('C03', 'rsa-pad-one-short', PK, "            ct = b'\\x00' * ((pk.keymaterial.__privkey__().key_size // 8) - len(ct)) + ct\n", "            ct = b'\\x00' * ((pk.keymaterial.__privkey__().key_size // 8) - len(ct) - 1) + ct\n", 'C03.1')
+SEIPD_ENC = ("    def encrypt(self, key, alg, data):\n        iv = alg.gen_iv()\n        data = iv + iv[-2:] + data\n\n        mdc = MDC()\n        mdc.mdc = binascii.hexlify(hashlib.new('SHA1', data + b'\\xd3\\x14').digest())\n"
+             "        mdc.update_hlen()\n\n        data += mdc.__bytes__()\n        self.ct = _encrypt(data, key, alg)\n        self.update_hlen()\n")
+T('C03', 'twin-seipd-renamed-sha1', PK, SEIPD_ENC,
+  "    def encrypt(self, sessionkey, cipher, plaintext):\n        prefix = cipher.gen_iv()\n        body = b''.join([prefix, prefix[-2:], plaintext])\n\n        digest = hashlib.sha1(body)\n        digest.update(b'\\xd3')\n        digest.update(b'\\x14')\n"
+  "        trailer = MDC()\n        trailer.mdc = binascii.hexlify(digest.digest())\n        trailer.update_hlen()\n\n        self.ct = _encrypt(body + trailer.__bytes__(), sessionkey, cipher)\n        self.update_hlen()\n")
+M('C03', 'seipd-mdc-stale-header', PK, "        mdc.update_hlen()\n\n        data += mdc.__bytes__()", "        data += mdc.__bytes__()\n        mdc.update_hlen()", 'C03.2')
+M('C03', 'seipd-two-iv-draws', PK, "        data = iv + iv[-2:] + data\n\n        mdc = MDC()", "        data = iv + alg.gen_iv()[-2:] + data\n\n        mdc = MDC()", 'C03.2')
+M('C03', 'old-format-default', TY, "        self._lenfmt = 1\n", "        self._lenfmt = 0\n", 'C03.2')
+T('C03', 'twin-skesk-encalg-direct', PK, "        esk = self.s2k.derive_key(passphrase)\n        del passphrase\n\n        self.ct = _encrypt(self.int_to_bytes(self.symalg) + sk, esk, self.symalg)",
+  "        kek = self.s2k.derive_key(passphrase)\n        del passphrase\n\n        cipher = self.s2k.encalg\n        self.ct = _encrypt(b''.join([self.int_to_bytes(cipher), sk]), kek, cipher, iv=None)")
+T('C03', 'twin-skesk-reader-slices', PK, "        symalg = SymmetricKeyAlgorithm(m[0])\n        del m[0]\n\n        return symalg, bytes(m)", "        return SymmetricKeyAlgorithm(m[0]), bytes(m[1:])")
+M('C03', 'skesk-kek-for-other-cipher', PK, "        self.ct = _encrypt(self.int_to_bytes(self.symalg) + sk, esk, self.symalg)", "        self.ct = _encrypt(self.int_to_bytes(self.symalg) + sk, esk, SymmetricKeyAlgorithm.AES128)", 'C03.3')
+SKESK_PARSE = ("        packet.insert(0, 255)\n        self.s2k.parse(packet, iv=False)\n\n        ctend = self.header.length - len(self.s2k)\n        self.ct = packet[:ctend]\n        del packet[:ctend]\n")
+T('C03', 'twin-skesk-parse-spelling', PK, SKESK_PARSE,
+  "        packet.insert(0, 0xFF)\n        self.s2k.parse(packet, False)\n\n        remaining = -len(self.s2k) + self.header.length\n        self.ct, tail = packet[:remaining], None\n        del packet[0:remaining]\n")
+M('C03', 'skesk-parse-usage-254', PK, "        packet.insert(0, 255)\n        self.s2k.parse(packet, iv=False)", "        packet.insert(0, 254)\n        self.s2k.parse(packet, iv=False)", 'C03.3')
+M('C03', 'skesk-parse-reads-iv', PK, "        packet.insert(0, 255)\n        self.s2k.parse(packet, iv=False)", "        packet.insert(0, 255)\n        self.s2k.parse(packet)", 'C03.3')
+M('C03', 'skesk-parse-ct-one-long', PK, "        ctend = self.header.length - len(self.s2k)\n        self.ct = packet[:ctend]", "        ctend = self.header.length - len(self.s2k) + 1\n        self.ct = packet[:ctend]", 'C03.3')
+T('C03', 'twin-symenc-keywords', SE, "        encryptor = Cipher(alg.cipher(key), modes.CFB(iv), default_backend()).encryptor()\n", "        cipher = Cipher(algorithm=alg.cipher(key), mode=modes.CFB(iv), backend=default_backend())\n        encryptor = cipher.encryptor()\n",
+  more=[(SE, "        return bytearray(encryptor.update(pt) + encryptor.finalize())", "        head = encryptor.update(pt)\n        return bytearray(b''.join([head, encryptor.finalize()]))"),
+        (SE, "def _encrypt(pt, key, alg, iv=None):\n    if iv is None:\n        iv = b'\\x00' * (alg.block_size // 8)\n", "def _encrypt(pt, key, alg, iv=None):\n    iv = b'\\x00' * (alg.block_size >> 3) if iv is None else iv\n")])
+T('C03', 'twin-symenc-params-renamed', SE, "def _decrypt(ct, key, alg, iv=None):", "def _decrypt(ciphertext, sessionkey, cipher, nonce=None):",
+  more=[(SE, "        iv = b'\\x00' * (alg.block_size // 8)\n\n    try:\n        decryptor = Cipher(alg.cipher(key), modes.CFB(iv), default_backend()).decryptor()", "        nonce = b'\\x00' * (cipher.block_size // 8)\n\n    try:\n        decryptor = Cipher(cipher.cipher(sessionkey), modes.CFB(nonce), default_backend()).decryptor()"),
+        (SE, "def _decrypt(ciphertext, sessionkey, cipher, nonce=None):\n    if iv is None:", "def _decrypt(ciphertext, sessionkey, cipher, nonce=None):\n    if nonce is None:"),
+        (SE, "        return bytearray(decryptor.update(ct) + decryptor.finalize())", "        return bytearray(decryptor.update(ciphertext) + decryptor.finalize())")])
+M('C03', 'decrypt-ofb-mode', SE, "        decryptor = Cipher(alg.cipher(key), modes.CFB(iv), default_backend()).decryptor()", "        decryptor = Cipher(alg.cipher(key), modes.OFB(iv), default_backend()).decryptor()", 'C03.4')
+M('C03', 'encrypt-no-finalize', SE, "        return bytearray(encryptor.update(pt) + encryptor.finalize())", "        return bytearray(encryptor.update(pt))", 'C03.4')
+M('C03', 'encrypt-iv-blocksize-bits', SE, "        iv = b'\\x00' * (alg.block_size // 8)\n\n    if alg.is_insecure:", "        iv = b'\\x00' * (alg.block_size // 4)\n\n    if alg.is_insecure:", 'C03.4')
+KDF_BODY = ("        data = bytearray()\n        data += encoder.encode(curve.value)[1:]\n        data.append(pkalg)\n        data += b'\\x03\\x01'\n        data.append(self.halg)\n        data.append(self.encalg)\n"
+            "        data += b'Anonymous Sender    '\n        data += binascii.unhexlify(fingerprint.replace(' ', ''))\n\n"
+            "        ckdf = ConcatKDFHash(algorithm=getattr(hashes, self.halg.name)(), length=self.encalg.key_size // 8, otherinfo=bytes(data), backend=default_backend())\n        return ckdf.derive(s)\n")
+T('C03', 'twin-kdf-join-positional', FL, "    def derive_key(self, s, curve, pkalg, fingerprint):", "    def derive_key(self, secret, oid, algid, fpr):",
+  more=[(FL, KDF_BODY, "        oid_der = encoder.encode(oid.value)[1:]\n        param = b''.join([oid_der, bytearray([algid, 0x03, 0x01, self.halg, self.encalg]), b'Anonymous Sender' + b' ' * 4,\n                          binascii.unhexlify(fpr.replace(' ', ''))])\n"
+         "        zlen = self.encalg.key_size >> 3\n        return ConcatKDFHash(getattr(hashes, self.halg.name)(), zlen, param, default_backend()).derive(secret)\n")])
+M('C03', 'kdf-length-blocksize', FL, "length=self.encalg.key_size // 8, otherinfo=bytes(data)", "length=self.encalg.block_size // 8, otherinfo=bytes(data)", 'C03.5')
+M('C03', 'kdf-hash-fixed-sha256', FL, "ConcatKDFHash(algorithm=getattr(hashes, self.halg.name)(), length=", "ConcatKDFHash(algorithm=hashes.SHA256(), length=", 'C03.5')
+M('C03', 'kdf-param-oid-with-tag', FL, "        data += encoder.encode(curve.value)[1:]\n", "        data += encoder.encode(curve.value)\n", 'C03.5')
+T('C03', 'twin-ecdh-derive-keywords', FL, "        # derive the wrapping key\n        z = km.kdf.derive_key(s, km.oid, PubKeyAlgorithm.ECDH, pk.fingerprint)\n\n        # compute C\n        ct.c = aes_key_wrap(z, m, default_backend())",
+  "        # derive the wrapping key\n        kek = km.kdf.derive_key(s, curve=km.oid, pkalg=PubKeyAlgorithm.ECDH, fingerprint=pk.fingerprint)\n\n        # compute C\n        ct.c = aes_key_wrap(wrapping_key=kek, key_to_wrap=m, backend=default_backend())",
+  more=[(FL, "        padder = PKCS7(64).padder()\n        m = padder.update(_m) + padder.finalize()", "        pkcs5 = PKCS7(block_size=64).padder()\n        m = b''.join([pkcs5.update(_m), pkcs5.finalize()])")])
+M('C03', 'ecdh-decrypt-unwraps-with-oid-of-subkey', FL, "        # derive the wrapping key\n        z = km.kdf.derive_key(s, km.oid, PubKeyAlgorithm.ECDH, pk.fingerprint)\n\n        # unwrap and unpad m",
+  "        # derive the wrapping key\n        z = km.kdf.derive_key(s, km.oid, pk.pkalg, pk.fingerprint)\n\n        # unwrap and unpad m", 'C03.5')
+M('C03', 'ecdh-decrypt-pads-instead-of-unpads', FL, "        padder = PKCS7(64).unpadder()\n        return padder.update(_m) + padder.finalize()", "        padder = PKCS7(64).padder()\n        return padder.update(_m) + padder.finalize()", 'C03.5')
+M('C03', 'ecdh-unwrap-skips-first-octet', FL, "        _m = aes_key_unwrap(z, self.c, default_backend())", "        _m = aes_key_unwrap(z, self.c[1:], default_backend())", 'C03.5')
+T('C03', 'twin-compress-eq-elif', CO, "        if self is CompressionAlgorithm.ZIP:\n            return zlib.compress(data)[2:-4]\n\n        if self is CompressionAlgorithm.ZLIB:\n            return zlib.compress(data)\n",
+  "        if self is CompressionAlgorithm.ZIP:\n            deflated = zlib.compress(data)\n            return deflated[2:][:-4]\n\n        elif self is CompressionAlgorithm.ZLIB:\n            return zlib.compress(data)\n")
+M('C03', 'zlib-arm-returns-raw-deflate', CO, "        if self is CompressionAlgorithm.ZLIB:\n            return zlib.compress(data)\n", "        if self is CompressionAlgorithm.ZLIB:\n            return zlib.compress(data)[2:-4]\n", 'C03.6')
+MSG_ENC = ("        if sessionkey is None:\n            sessionkey = cipher_algo.gen_key()\n        skesk.encrypt_sk(passphrase, sessionkey)\n        del passphrase\n\n        msg = PGPMessage() | skesk\n\n"
+           "        if not self.is_encrypted:\n            skedata = IntegrityProtectedSKEDataV1()\n            skedata.encrypt(sessionkey, cipher_algo, self.__bytes__())\n            msg |= skedata\n")
+T('C03', 'twin-msg-encrypt-renamed-keywords', PGP, MSG_ENC,
+  "        sk = cipher_algo.gen_key() if sessionkey is None else sessionkey\n        skesk.encrypt_sk(passphrase, sk=sk)\n        del passphrase\n\n        msg = PGPMessage() | skesk\n\n"
+  "        if not self.is_encrypted:\n            container = IntegrityProtectedSKEDataV1()\n            container.encrypt(key=sk, alg=cipher_algo, data=bytes(self))\n            msg |= container\n")
+M('C03', 'msg-encrypt-skesk-other-cipher', PGP, "        skesk.s2k.encalg = cipher_algo\n", "        skesk.s2k.encalg = SymmetricKeyAlgorithm.AES256\n", 'C03.7')
+M('C03', 'key-encrypt-container-holds-inner-message', PGP, "            skedata.encrypt(sessionkey, cipher_algo, message.__bytes__())", "            skedata.encrypt(sessionkey, cipher_algo, message.message.__bytes__())", 'C03.7')
+SEL = ("        pkesk = next(pk for pk in message._sessionkeys if isinstance(pk, PKESessionKey)\n                     and pk.pkalg == self.key_algorithm and pk.encrypter == self.fingerprint.keyid)\n")
+T('C03', 'twin-selection-reordered', PGP, SEL,
+  "        mine = self.fingerprint.keyid\n        candidates = [esk for esk in message._sessionkeys if isinstance(esk, PKESessionKey)\n                      if not (mine != esk.encrypter or esk.pkalg != self.key_algorithm)]\n        pkesk = next(iter(candidates))\n")
+T('C03', 'twin-decrypt-loop-guard-clauses', PGP, "        for skesk in iter(sk for sk in self._sessionkeys if isinstance(sk, SKESessionKey)):\n            try:\n                symalg, key = skesk.decrypt_sk(passphrase)",
+  "        for skesk in self._sessionkeys:\n            if isinstance(skesk, PKESessionKey):\n                continue\n            try:\n                symalg, key = skesk.decrypt_sk(passphrase)")
+T('C03', 'twin-encrypters-loop', PGP, "        return set(m.encrypter for m in self._sessionkeys if isinstance(m, PKESessionKey))",
+  "        ids = set()\n        for esk in self._sessionkeys:\n            if not isinstance(esk, PKESessionKey):\n                continue\n            ids.add(esk.encrypter)\n        return ids")
+M('C03', 'encrypters-loop-wrong-class-guard', PGP, "        return set(m.encrypter for m in self._sessionkeys if isinstance(m, PKESessionKey))",
+  "        ids = set()\n        for esk in self._sessionkeys:\n            if isinstance(esk, PKESessionKey):\n                continue\n            ids.add(esk.encrypter)\n        return ids", 'C03.8')
+M('C03', 'encrypters-filter-after-read', PGP, "        return set(m.encrypter for m in self._sessionkeys if isinstance(m, PKESessionKey))",
+  "        return set(m.encrypter for m in self._sessionkeys if m.encrypter and isinstance(m, PKESessionKey))", 'C03.8')
+M('C03', 'selection-or-keyid', PGP, SEL, "        pkesk = next(pk for pk in message._sessionkeys if isinstance(pk, PKESessionKey)\n                     and (pk.pkalg == self.key_algorithm or pk.encrypter == self.fingerprint.keyid))\n", 'C03.8')
+M('C03', 'selection-keyid-negated', PGP, SEL, "        pkesk = next(pk for pk in message._sessionkeys if isinstance(pk, PKESessionKey)\n                     and pk.pkalg == self.key_algorithm and pk.encrypter != self.fingerprint.keyid)\n", 'C03.8')
+
 # =============================================================================================== C02
 M('C02', 'hash2-last-two', PGP, "        sig._signature.hash2 = bytearray(h2.digest()[:2])", "        sig._signature.hash2 = bytearray(h2.digest()[-2:])", 'C02.2')
 M('C02', 'signer-hashdata-none', PGP, "        _sig = self._key.sign(sigdata, getattr(hashes, sig.hash_algorithm.name)())", "        _sig = self._key.sign(sig.hashdata(None), getattr(hashes, sig.hash_algorithm.name)())", 'C02.2')
